@@ -1,4 +1,1202 @@
-//! Concurrent-stream driver (C13-C15).
+//! Concurrent-stream engine (C13-C15, and the co-stream share of C02/C03).
+//!
+//! A case is a scripted source (a scripted stream through `.co()`, or a
+//! `Vec` through `into_co_stream()`), an adapter stack of depth <= 3 over
+//! {map, enumerate, take, limit}, a terminal operation (collect into Vec,
+//! for_each, try_for_each, collect into Result<Vec,_>), one scripted *work*
+//! future per (closure stage, item), and an adversarial poll/fire/drop
+//! schedule executed by the same wake-only executor as the combinators.
+//!
+//! Everything the library is given is harness-owned: the source is a scripted
+//! leaf, every closure invocation creates a scripted leaf ("work" node) whose
+//! creation, polls, completion and drop are logged in the `World`, and every
+//! value is a token. The oracles below are stated over that trace.
+
+use crate::construct::Top;
+use crate::driver::{hash_of, Engine, Eval};
+use crate::exec::{Exec, RunOut};
+use crate::gen::{gen_schedule, Cur, Profile};
+use crate::nodes::{BoxF, DropMark, LeafS};
+use crate::spec::{Action, LeafSpec};
+use crate::val::{Shape, Val};
+use crate::world::{self, Answer, Container, Family, Flavor, LeafOut, NodeId, NodeKind, Oracle, Step, World};
+use futures_concurrency::concurrent_stream::{ConcurrentStream, IntoConcurrentStream};
+use futures_concurrency::stream::StreamExt as _;
+use std::collections::BTreeMap;
+use std::future::Future;
+use std::num::NonZeroUsize;
+use std::pin::Pin;
+use std::task::{Context, Poll};
+
+// ------------------------------------------------------------------ case
+
+#[derive(Clone, Copy, Debug, PartialEq, Eq, Hash)]
+pub enum Adapter {
+    Map,
+    Enumerate,
+    Take(usize),
+    /// 0 = `limit(None)`
+    Limit(usize),
+}
+
+#[derive(Clone, Copy, Debug, PartialEq, Eq, Hash)]
+pub enum Terminal {
+    CollectVec,
+    ForEach,
+    TryForEach,
+    CollectResult,
+}
+
+#[derive(Clone, Copy, Debug, PartialEq, Eq, Hash)]
+pub enum SourceKind {
+    /// scripted stream `.co()`
+    Co,
+    /// `Vec::into_co_stream()`
+    Vec,
+}
+
+#[derive(Clone, Debug, PartialEq, Eq, Hash)]
+pub struct CoCase {
+    pub source: SourceKind,
+    /// Co: the stream's script (Yield = item). Vec: only the number of Yields counts.
+    pub src_script: Vec<Step>,
+    pub stack: Vec<Adapter>,
+    pub terminal: Terminal,
+    /// work[stage][item]: script of the future the closure of `stage` returns
+    /// for the item with that source position. Stage s < stack.len() is the
+    /// map closure at stack[s] (empty for non-map adapters); stage
+    /// stack.len() is the terminal closure (for_each / try_for_each) or the
+    /// fallible map in front of collect::<Result<..>>.
+    pub work: Vec<Vec<LeafSpec>>,
+    pub schedule: Vec<Action>,
+    pub drain: Vec<u8>,
+    pub no_drain: bool,
+}
+
+impl CoCase {
+    pub fn n_items(&self) -> usize {
+        self.src_script.iter().filter(|s| matches!(s, Step::Yield(_))).count()
+    }
+    pub fn take_min(&self) -> Option<usize> {
+        self.stack.iter().filter_map(|a| if let Adapter::Take(n) = a { Some(*n) } else { None }).min()
+    }
+    /// the concurrency limit the terminal operation sees
+    pub fn limit(&self) -> Option<usize> {
+        self.stack
+            .iter()
+            .rev()
+            .find_map(|a| if let Adapter::Limit(n) = a { Some(*n) } else { None })
+            .and_then(|n| if n == 0 { None } else { Some(n) })
+    }
+    pub fn expected_items(&self) -> usize {
+        self.n_items().min(self.take_min().unwrap_or(usize::MAX))
+    }
+    fn steps(&self) -> usize {
+        self.src_script.len() + 1 + self.work.iter().map(|st| st.iter().map(|l| l.script.len() + 1).sum::<usize>()).sum::<usize>()
+    }
+    pub fn has_never(&self) -> bool {
+        self.src_script.contains(&Step::Never) || self.work.iter().any(|st| st.iter().any(|l| l.script.contains(&Step::Never)))
+    }
+    pub fn show(&self) -> String {
+        let step = |s: &Step| match s {
+            Step::Later => "P".to_string(),
+            Step::SelfWake => "Pself".into(),
+            Step::WakeSib(k) => format!("Psib{}", k),
+            Step::Never => "NEVER".into(),
+            Step::Yield(true) => "Y".into(),
+            Step::Yield(false) => "ERR".into(),
+            Step::End => "End".into(),
+            Step::Panic => "PANIC".into(),
+        };
+        let src = match self.source {
+            SourceKind::Co => format!("stream<{}>.co()", self.src_script.iter().map(step).collect::<Vec<_>>().join(" ")),
+            SourceKind::Vec => format!("vec[{}].into_co_stream()", self.n_items()),
+        };
+        let mut s = src;
+        for a in &self.stack {
+            s.push_str(&match a {
+                Adapter::Map => ".map(f)".to_string(),
+                Adapter::Enumerate => ".enumerate()".into(),
+                Adapter::Take(n) => format!(".take({})", n),
+                Adapter::Limit(0) => ".limit(None)".into(),
+                Adapter::Limit(n) => format!(".limit({})", n),
+            });
+        }
+        s.push_str(match self.terminal {
+            Terminal::CollectVec => ".collect::<Vec<_>>()",
+            Terminal::ForEach => ".for_each(g)",
+            Terminal::TryForEach => ".try_for_each(g)",
+            Terminal::CollectResult => ".map(try_g).collect::<Result<Vec<_>,_>>()",
+        });
+        let mut works = Vec::new();
+        for (si, st) in self.work.iter().enumerate() {
+            if st.is_empty() {
+                continue;
+            }
+            let items: Vec<String> = st.iter().map(|l| format!("<{}>", l.script.iter().map(step).collect::<Vec<_>>().join(" "))).collect();
+            works.push(format!("stage{}: {}", si, items.join(" ")));
+        }
+        let acts: Vec<String> = self
+            .schedule
+            .iter()
+            .map(|a| match a {
+                Action::Poll { reuse } => format!("Poll{}", if *reuse { "(same waker)" } else { "" }),
+                Action::Fire { leaf, which, twice, thread } => format!(
+                    "Fire(leaf~{},{}{}{})",
+                    leaf,
+                    if *which == 0 { "current".to_string() } else { format!("stale-{}", which) },
+                    if *twice { ",x2" } else { "" },
+                    if *thread { ",thread" } else { "" }
+                ),
+                Action::Drop => "Drop".into(),
+            })
+            .collect();
+        format!(
+            "{} | closure futures by source position: {} | schedule: [{}]{}",
+            s,
+            works.join("; "),
+            acts.join(" "),
+            if self.no_drain { " (no drain)" } else { " then fair drain" }
+        )
+    }
+}
+
+// ------------------------------------------------------------------ log
+
+#[derive(Clone, Debug)]
+pub struct WorkRec {
+    pub node: NodeId,
+    pub stage: usize,
+    /// source position of the item this closure invocation was given
+    pub item: Option<usize>,
+    pub input: Shape,
+    /// token the work future produced (Ok or Err)
+    pub output: Option<(bool, u32)>,
+}
 
 #[derive(Default)]
-pub struct CoLog {}
+pub struct CoLog {
+    pub scripts: Vec<Vec<LeafSpec>>,
+    pub works: Vec<WorkRec>,
+    /// token -> source position of the item it derives from
+    pub root_of: BTreeMap<u32, usize>,
+    pub src: Option<NodeId>,
+    pub vec_items: Vec<u32>,
+}
+
+/// source position of the item a token derives from
+fn item_of(w: &World, t: u32) -> Option<usize> {
+    if let Some(i) = w.co.root_of.get(&t) {
+        return Some(*i);
+    }
+    let src = w.co.src?;
+    if w.toks.get(t as usize)?.producer != Some(src) {
+        return None;
+    }
+    w.nodes[src].items().iter().position(|(_, s)| *s == Shape::T(t))
+}
+
+fn first_tok(s: &Shape) -> Option<u32> {
+    let mut v = Vec::new();
+    s.toks(&mut v);
+    v.first().cloned()
+}
+
+// ------------------------------------------------------------------ work futures
+
+pub trait Item: 'static {
+    fn into_val(self) -> Val;
+}
+impl Item for Val {
+    fn into_val(self) -> Val {
+        self
+    }
+}
+impl<T: Item> Item for (usize, T) {
+    fn into_val(self) -> Val {
+        Val::pair(self.0, self.1.into_val())
+    }
+}
+
+/// State shared by the four work-future types: the input the closure was
+/// given (dropped when the future completes or is dropped) and the node.
+pub struct WorkCore {
+    input: Option<Val>,
+    mark: DropMark,
+}
+
+impl WorkCore {
+    fn new(stage: usize, input: Val, flavor: Flavor) -> WorkCore {
+        let shape = input.shape();
+        let id = world::with(|w| {
+            let top = w.top;
+            let item = first_tok(&shape).and_then(|t| item_of(w, t));
+            // a second invocation for the same (stage, item) re-uses the script
+            let script = item.and_then(|i| w.co.scripts.get(stage).and_then(|s| s.get(i))).map(|l| l.script.clone()).unwrap_or_default();
+            let idx = w.co.works.len();
+            w.tick();
+            let id = w.new_node(top, idx, NodeKind::Leaf { flavor, script, pos: 0, always: false });
+            w.nodes[id].item = item;
+            if w.trace_on {
+                let p = w.path(id);
+                w.trace.push(format!(
+                    "    closure of stage {} invoked with {} (source position {}) -> {}",
+                    stage,
+                    shape.show(),
+                    item.map(|i| i.to_string()).unwrap_or_else(|| "?".into()),
+                    p
+                ));
+            }
+            w.co.works.push(WorkRec { node: id, stage, item, input: shape.clone(), output: None });
+            id
+        });
+        WorkCore { input: Some(input), mark: DropMark(id) }
+    }
+
+    fn poll(&mut self, cx: &mut Context<'_>) -> Poll<(Val, bool)> {
+        let id = self.mark.0;
+        match world::leaf_poll(id, cx) {
+            LeafOut::Pending => Poll::Pending,
+            LeafOut::End => unreachable!(),
+            LeafOut::Yield(t, ok) => {
+                world::with(|w| {
+                    let item = w.nodes[id].item;
+                    if let Some(i) = item {
+                        w.co.root_of.insert(t.id, i);
+                    }
+                    if let Some(r) = w.co.works.iter_mut().find(|r| r.node == id) {
+                        r.output = Some((ok, t.id));
+                    }
+                });
+                // the closure future consumed its input
+                self.input = None;
+                Poll::Ready((t, ok))
+            }
+        }
+    }
+}
+
+/// map closure future: item -> new value
+pub struct WorkF(WorkCore);
+/// for_each closure future
+pub struct WorkU(WorkCore);
+/// try_for_each closure future
+pub struct WorkRU(WorkCore);
+/// fallible map in front of collect::<Result<Vec<_>,_>>
+pub struct WorkR(WorkCore);
+
+impl Future for WorkF {
+    type Output = Val;
+    fn poll(mut self: Pin<&mut Self>, cx: &mut Context<'_>) -> Poll<Val> {
+        self.0.poll(cx).map(|(t, _)| t)
+    }
+}
+impl Future for WorkU {
+    type Output = ();
+    fn poll(mut self: Pin<&mut Self>, cx: &mut Context<'_>) -> Poll<()> {
+        self.0.poll(cx).map(|(t, _)| drop(t))
+    }
+}
+impl Future for WorkRU {
+    type Output = Result<(), Val>;
+    fn poll(mut self: Pin<&mut Self>, cx: &mut Context<'_>) -> Poll<Result<(), Val>> {
+        self.0.poll(cx).map(|(t, ok)| if ok { Ok(drop(t)) } else { Err(t) })
+    }
+}
+impl Future for WorkR {
+    type Output = Result<Val, Val>;
+    fn poll(mut self: Pin<&mut Self>, cx: &mut Context<'_>) -> Poll<Result<Val, Val>> {
+        self.0.poll(cx).map(|(t, ok)| if ok { Ok(t) } else { Err(t) })
+    }
+}
+
+// ------------------------------------------------------------------ builder
+
+fn unit() -> Val {
+    Val::list(Vec::new())
+}
+
+fn terminal<CS>(cs: CS, t: Terminal, stage: usize) -> BoxF
+where
+    CS: ConcurrentStream + 'static,
+    CS::Item: Item,
+{
+    match t {
+        Terminal::CollectVec => Box::pin(async move {
+            let v: Vec<CS::Item> = cs.collect().await;
+            Val::list(v.into_iter().map(Item::into_val).collect())
+        }),
+        Terminal::ForEach => Box::pin(async move {
+            cs.for_each(move |x: CS::Item| WorkU(WorkCore::new(stage, x.into_val(), Flavor::F))).await;
+            unit()
+        }),
+        Terminal::TryForEach => Box::pin(async move {
+            let r: Result<(), Val> = cs.try_for_each(move |x: CS::Item| WorkRU(WorkCore::new(stage, x.into_val(), Flavor::R))).await;
+            Val::res(r.map(|()| unit()))
+        }),
+        Terminal::CollectResult => Box::pin(async move {
+            let r: Result<Vec<Val>, Val> = cs.map(move |x: CS::Item| WorkR(WorkCore::new(stage, x.into_val(), Flavor::R))).collect().await;
+            Val::res(r.map(Val::list))
+        }),
+    }
+}
+
+fn build0<CS>(cs: CS, _stack: &[Adapter], stage: usize, t: Terminal) -> BoxF
+where
+    CS: ConcurrentStream + 'static,
+    CS::Item: Item,
+{
+    terminal(cs, t, stage)
+}
+
+macro_rules! build_level {
+    ($name:ident, $next:ident) => {
+        fn $name<CS>(cs: CS, stack: &[Adapter], stage: usize, t: Terminal) -> BoxF
+        where
+            CS: ConcurrentStream + 'static,
+            CS::Item: Item,
+        {
+            match stack.split_first() {
+                None => terminal(cs, t, stage),
+                Some((Adapter::Map, rest)) => $next(cs.map(move |x: CS::Item| WorkF(WorkCore::new(stage, x.into_val(), Flavor::F))), rest, stage + 1, t),
+                Some((Adapter::Enumerate, rest)) => $next(cs.enumerate(), rest, stage + 1, t),
+                Some((Adapter::Take(n), rest)) => $next(cs.take(*n), rest, stage + 1, t),
+                Some((Adapter::Limit(n), rest)) => $next(cs.limit(NonZeroUsize::new(*n)), rest, stage + 1, t),
+            }
+        }
+    };
+}
+build_level!(build1, build0);
+build_level!(build2, build1);
+build_level!(build3, build2);
+
+pub const MAX_DEPTH: usize = 3;
+
+fn build_case(case: &CoCase, top: NodeId) -> BoxF {
+    let n = case.n_items();
+    world::with(|w| {
+        w.co.scripts = case.work.clone();
+    });
+    match case.source {
+        SourceKind::Co => {
+            let src = world::with(|w| {
+                let id = w.new_node(Some(top), 0, NodeKind::Leaf { flavor: Flavor::S, script: case.src_script.clone(), pos: 0, always: false });
+                w.co.src = Some(id);
+                id
+            });
+            let s = LeafS(DropMark(src));
+            build3(s.co(), &case.stack, 0, case.terminal)
+        }
+        SourceKind::Vec => {
+            let items: Vec<Val> = (0..n)
+                .map(|i| {
+                    world::with(|w| {
+                        let t = w.new_tok(top);
+                        w.co.root_of.insert(t.id, i);
+                        w.co.vec_items.push(t.id);
+                        t
+                    })
+                })
+                .collect();
+            build3(items.into_co_stream(), &case.stack, 0, case.terminal)
+        }
+    }
+}
+
+// ------------------------------------------------------------------ run
+
+pub struct CoOut {
+    pub run: RunOut,
+    pub resolved: bool,
+}
+
+pub fn run_co_case(case: &CoCase, std_cfg: bool, trace: bool) -> CoOut {
+    world::reset(std_cfg, trace);
+    let top = world::with(|w| {
+        w.new_node(
+            None,
+            0,
+            NodeKind::Comb {
+                family: Family::Co,
+                container: if case.source == SourceKind::Vec { Container::Vec } else { Container::Ext },
+                children: Vec::new(),
+            },
+        )
+    });
+    world::with(|w| w.top = Some(top));
+    let f = build_case(case, top);
+    let mut ex = Exec::with_top(top, Top::F(f));
+    for a in &case.schedule {
+        ex.act(a);
+    }
+    let mut quiescent = false;
+    if !case.no_drain && ex.alive() {
+        let bound = case.steps() * 4 + 64;
+        quiescent = ex.drain(&case.drain, bound);
+    }
+    let dropped_early = ex.dropped;
+    let inconclusive = ex.inconclusive;
+    let injected_panic = ex.injected_panic;
+    let spurious_polls = ex.spurious_polls;
+    let waker_changes_while_parked = ex.waker_changes_while_parked;
+    let was_alive = ex.alive();
+    let resolved = ex.finished;
+    // progress: the fair drain reached quiescence, the operation is still
+    // pending, and nothing is waiting on a never-completing future
+    if quiescent && was_alive && !resolved {
+        let tor = term_oracle(case.terminal);
+        world::with(|w| {
+            let never = w.nodes.iter().any(|n| n.is_leaf() && n.is_never() && n.dropped_at.is_none());
+            if !never {
+                let pending: Vec<String> = w
+                    .nodes
+                    .iter()
+                    .filter(|n| n.is_leaf() && n.finished_at.is_none() && n.dropped_at.is_none())
+                    .map(|n| format!("{} (last answer {})", w.path(n.id), n.last_answer().map(|a| a.show()).unwrap_or_else(|| "never polled".into())))
+                    .collect();
+                w.violate(
+                    tor,
+                    format!(
+                        "the operation is Pending with no wake-up outstanding although the source and every closure future can make progress or have finished; unfinished: [{}]",
+                        pending.join(", ")
+                    ),
+                );
+            }
+        });
+    }
+    let (held, held_r) = ex.finish();
+    let leaves: Vec<NodeId> = world::with(|w| w.leaves.clone());
+    for (i, l) in leaves.iter().enumerate() {
+        if i < 3 {
+            let _ = std::panic::catch_unwind(std::panic::AssertUnwindSafe(|| world::fire(*l, 0, false)));
+        }
+    }
+    drop(held);
+    drop(held_r);
+    let world = world::take_world();
+    CoOut {
+        run: RunOut {
+            world,
+            top,
+            inconclusive,
+            quiescent: quiescent && was_alive,
+            dropped_early,
+            injected_panic,
+            spurious_polls,
+            waker_changes_while_parked,
+        },
+        resolved,
+    }
+}
+
+// ------------------------------------------------------------------ oracles
+
+fn term_oracle(t: Terminal) -> Oracle {
+    match t {
+        Terminal::ForEach => Oracle::Co13,
+        Terminal::TryForEach | Terminal::CollectResult => Oracle::Co14,
+        Terminal::CollectVec => Oracle::Co15,
+    }
+}
+
+struct Ctx<'a> {
+    case: &'a CoCase,
+    /// source token of each produced item, by source position
+    src_toks: Vec<u32>,
+    /// by (stage, item): indices into works
+    by: BTreeMap<(usize, usize), Vec<usize>>,
+}
+
+impl<'a> Ctx<'a> {
+    /// is `stage` a closure stage, and which property owns its exactness?
+    fn closure_stage(&self, stage: usize) -> bool {
+        if stage < self.case.stack.len() {
+            self.case.stack[stage] == Adapter::Map
+        } else {
+            self.case.terminal != Terminal::CollectVec
+        }
+    }
+
+    /// the value the closure of `stage` must have been given for the item at
+    /// source position `item` (None: an upstream map future has not produced
+    /// its output)
+    fn expected_in(&self, w: &World, stage: usize, item: usize) -> Option<Shape> {
+        let mut s = Shape::T(*self.src_toks.get(item)?);
+        for (si, a) in self.case.stack.iter().enumerate().take(stage) {
+            match a {
+                Adapter::Map => {
+                    let wi = *self.by.get(&(si, item))?.first()?;
+                    let (_, t) = w.co.works[wi].output?;
+                    s = Shape::T(t);
+                }
+                Adapter::Enumerate => s = Shape::P(item, Box::new(s)),
+                Adapter::Take(_) | Adapter::Limit(_) => {}
+            }
+        }
+        Some(s)
+    }
+}
+
+fn stage_name(case: &CoCase, stage: usize) -> String {
+    if stage < case.stack.len() {
+        format!("the map closure at position {} of the stack", stage)
+    } else {
+        match case.terminal {
+            Terminal::ForEach => "the for_each closure".into(),
+            Terminal::TryForEach => "the try_for_each closure".into(),
+            Terminal::CollectResult => "the fallible map closure in front of collect".into(),
+            Terminal::CollectVec => "collect".into(),
+        }
+    }
+}
+
+/// All concurrent-stream oracles, on the complete trace.
+pub fn check_co(w: &mut World, case: &CoCase) {
+    let top = w.top.unwrap();
+    let term = case.terminal;
+    let tor = term_oracle(term);
+    let has_take = case.take_min().is_some();
+    let src_toks: Vec<u32> = match case.source {
+        SourceKind::Vec => w.co.vec_items.clone(),
+        SourceKind::Co => w.nodes[w.co.src.unwrap()].items().iter().filter_map(|(_, s)| first_tok(s)).collect(),
+    };
+    let src_item_clocks: Vec<u32> = match case.source {
+        SourceKind::Vec => Vec::new(),
+        SourceKind::Co => w.nodes[w.co.src.unwrap()].items().iter().map(|(c, _)| *c).collect(),
+    };
+    let mut by: BTreeMap<(usize, usize), Vec<usize>> = BTreeMap::new();
+    for (i, r) in w.co.works.iter().enumerate() {
+        if let Some(it) = r.item {
+            by.entry((r.stage, it)).or_default().push(i);
+        }
+    }
+    let cx = Ctx { case, src_toks, by };
+    let mut viol: Vec<(Oracle, String)> = Vec::new();
+    let n_stages = case.stack.len() + 1;
+    let take_min = case.take_min().unwrap_or(usize::MAX);
+    let expected = case.expected_items();
+    // which property owns "the right items went through this stage"
+    let exact_oracles = |stage: usize| -> Vec<Oracle> {
+        let mut v = Vec::new();
+        if stage < case.stack.len() || has_take {
+            v.push(Oracle::Co15);
+        }
+        if stage == case.stack.len() && !v.contains(&tor) {
+            v.push(tor);
+        }
+        v
+    };
+
+    // (a) every closure invocation was given a value derived from a source item
+    for r in &w.co.works {
+        if r.item.is_none() {
+            for o in exact_oracles(r.stage) {
+                viol.push((o, format!("{} was invoked with {}, which is not derived from any source item", stage_name(case, r.stage), r.input.show())));
+            }
+        }
+    }
+    // (b) at most once per (stage, item); (c) with the right input; (d) within take
+    for ((stage, item), idxs) in cx.by.iter() {
+        if idxs.len() > 1 {
+            for o in exact_oracles(*stage) {
+                viol.push((o, format!("{} was invoked {} times for the item at source position {}", stage_name(case, *stage), idxs.len(), item)));
+            }
+        }
+        if *item >= take_min {
+            viol.push((
+                Oracle::Co15,
+                format!(
+                    "take({}) in the stack, yet {} was invoked for the item at source position {} (only the first {} may be processed)",
+                    take_min,
+                    stage_name(case, *stage),
+                    item,
+                    take_min
+                ),
+            ));
+        }
+        let got = &w.co.works[idxs[0]].input;
+        match cx.expected_in(w, *stage, *item) {
+            Some(e) => {
+                if *got != e {
+                    let enumerated = case.stack.iter().take(*stage).any(|a| *a == Adapter::Enumerate);
+                    for o in exact_oracles(*stage) {
+                        viol.push((
+                            o,
+                            format!(
+                                "{} was given {} for the item at source position {} but the stack in front of it produces {}{}",
+                                stage_name(case, *stage),
+                                got.show(),
+                                item,
+                                e.show(),
+                                if enumerated { " (enumerate must pair an item with its zero-based source position)" } else { "" }
+                            ),
+                        ));
+                    }
+                }
+            }
+            None => {
+                for o in exact_oracles(*stage) {
+                    viol.push((
+                        o,
+                        format!(
+                            "{} was invoked for the item at source position {} although an earlier stage has not produced that item's value",
+                            stage_name(case, *stage),
+                            item
+                        ),
+                    ));
+                }
+            }
+        }
+    }
+
+    // the operation's result
+    let result: Option<Shape> = w.nodes[top].polls.iter().find_map(|p| match &p.answer {
+        Answer::Ready(s) => Some(s.clone()),
+        _ => None,
+    });
+    let resolve_clock = w.nodes[top].finished_at;
+    let term_stage = case.stack.len();
+    let processed_at = |stage: usize| -> Vec<usize> { cx.by.keys().filter(|(s, _)| *s == stage).map(|(_, i)| *i).collect() };
+
+    // fallible terminals: errors the closure futures actually returned
+    let mut errs: Vec<(u32, u32)> = Vec::new(); // (clock, token)
+    if matches!(term, Terminal::TryForEach | Terminal::CollectResult) {
+        for r in &w.co.works {
+            if r.stage == term_stage {
+                if let Some((false, t)) = r.output {
+                    let c = w.nodes[r.node].finished_at.unwrap_or(0);
+                    errs.push((c, t));
+                }
+            }
+        }
+        errs.sort();
+    }
+
+    if let (Some(res), Some(rc)) = (&result, resolve_clock) {
+        // every closure stage saw exactly the expected items
+        let mut complete = true;
+        for stage in 0..n_stages {
+            if !cx.closure_stage(stage) {
+                continue;
+            }
+            let got = processed_at(stage);
+            let failed = !errs.is_empty();
+            if !failed {
+                for i in 0..expected {
+                    if !got.contains(&i) {
+                        complete = false;
+                        for o in exact_oracles(stage) {
+                            viol.push((
+                                o,
+                                format!(
+                                    "the operation resolved but {} was never invoked for the item at source position {} ({} of the source's items must be processed)",
+                                    stage_name(case, stage),
+                                    i,
+                                    expected
+                                ),
+                            ));
+                        }
+                    }
+                }
+            }
+        }
+        // structured: nothing in flight at resolution
+        for r in &w.co.works {
+            let n = &w.nodes[r.node];
+            let unfinished_at_resolution = match n.finished_at {
+                None => true,
+                Some(c) => c > rc,
+            };
+            if unfinished_at_resolution && errs.is_empty() {
+                let o = if r.stage == term_stage { tor } else { Oracle::Co15 };
+                viol.push((
+                    o,
+                    format!(
+                        "the operation resolved although the future returned by {} for the item at source position {:?} had not completed",
+                        stage_name(case, r.stage),
+                        r.item
+                    ),
+                ));
+                complete = false;
+            }
+        }
+        match term {
+            Terminal::ForEach => {}
+            Terminal::CollectVec => {
+                if let Shape::L(list) = res {
+                    if complete {
+                        let mut want: Vec<Shape> = (0..expected).filter_map(|i| cx.expected_in(w, term_stage, i)).collect();
+                        let mut have = list.clone();
+                        let key = |s: &Shape| s.show();
+                        want.sort_by_key(key);
+                        have.sort_by_key(key);
+                        if want != have {
+                            viol.push((
+                                Oracle::Co15,
+                                format!(
+                                    "collect returned {} but the per-item futures produced (one per processed source item) the multiset {}",
+                                    Shape::L(list.clone()).show(),
+                                    Shape::L((0..expected).filter_map(|i| cx.expected_in(w, term_stage, i)).collect()).show()
+                                ),
+                            ));
+                        }
+                    }
+                } else {
+                    viol.push((Oracle::Co15, format!("collect returned {}", res.show())));
+                }
+            }
+            Terminal::TryForEach | Terminal::CollectResult => match res {
+                Shape::Ok(inner) => {
+                    if let Some((_, t)) = errs.first() {
+                        viol.push((Oracle::Co14, format!("the operation resolved Ok although a closure future had resolved Err(t{})", t)));
+                    } else if term == Terminal::CollectResult && complete {
+                        if let Shape::L(list) = &**inner {
+                            // C14 speaks about the Ok values the item futures produced;
+                            // *which* items may be processed is C15's business
+                            let mut want: Vec<Shape> = w
+                                .co
+                                .works
+                                .iter()
+                                .filter(|r| r.stage == term_stage)
+                                .filter_map(|r| match r.output {
+                                    Some((true, t)) => Some(Shape::T(t)),
+                                    _ => None,
+                                })
+                                .collect();
+                            let mut have = list.clone();
+                            let key = |s: &Shape| s.show();
+                            want.sort_by_key(key);
+                            have.sort_by_key(key);
+                            if want != have {
+                                viol.push((
+                                    Oracle::Co14,
+                                    format!("collect returned Ok({}) but the Ok values the item futures produced are {}", Shape::L(list.clone()).show(), Shape::L(want).show()),
+                                ));
+                            }
+                        }
+                    }
+                }
+                Shape::Err(x) => {
+                    let t = first_tok(x);
+                    if !errs.iter().any(|(_, e)| Some(*e) == t) {
+                        viol.push((
+                            Oracle::Co14,
+                            format!("the operation resolved Err({}) but no closure future returned that error (errors returned: {:?})", x.show(), errs.iter().map(|e| e.1).collect::<Vec<_>>()),
+                        ));
+                    }
+                }
+                other => viol.push((Oracle::Co14, format!("unexpected result {}", other.show()))),
+            },
+        }
+    }
+
+    // cancellation on the first error: nothing is taken from the source and
+    // nothing else completes once an error has come out of a closure future
+    if let Some((t_err, etok)) = errs.first().cloned() {
+        if src_item_clocks.iter().any(|c| *c > t_err) {
+            viol.push((Oracle::Co14, format!("a further item was taken from the source after a closure future had resolved Err(t{})", etok)));
+        }
+        for r in &w.co.works {
+            let n = &w.nodes[r.node];
+            if n.created_at > t_err {
+                viol.push((
+                    Oracle::Co14,
+                    format!("{} was invoked (for source position {:?}) after a closure future had resolved Err(t{})", stage_name(case, r.stage), r.item, etok),
+                ));
+                break;
+            }
+            if matches!(n.finished_at, Some(c) if c > t_err) {
+                viol.push((
+                    Oracle::Co14,
+                    format!(
+                        "the future returned by {} for source position {:?} ran to completion after a closure future had resolved Err(t{}): in-flight futures must be dropped unfinished",
+                        stage_name(case, r.stage),
+                        r.item,
+                        etok
+                    ),
+                ));
+                break;
+            }
+        }
+    }
+
+    // concurrency limit (for_each only): closure invocations created and not yet completed
+    if term == Terminal::ForEach {
+        if let Some(limit) = case.limit() {
+            let term_works: Vec<NodeId> = w.co.works.iter().filter(|r| r.stage == term_stage).map(|r| r.node).collect();
+            for &a in &term_works {
+                let c = w.nodes[a].created_at;
+                let live = term_works
+                    .iter()
+                    .filter(|&&b| {
+                        let n = &w.nodes[b];
+                        n.created_at <= c && n.finished_at.map(|f| f > c).unwrap_or(true) && n.dropped_at.map(|d| d > c).unwrap_or(true)
+                    })
+                    .count();
+                if live > limit {
+                    viol.push((
+                        Oracle::Co13,
+                        format!("limit({}) but {} for_each closure invocations existed at once whose futures had not completed", limit, live),
+                    ));
+                    break;
+                }
+            }
+        }
+    }
+
+    for (o, m) in viol {
+        w.violate(o, m);
+    }
+}
+
+// ------------------------------------------------------------------ generator
+
+#[derive(Clone)]
+pub struct CoProfile {
+    pub base: Profile,
+    pub terminals: Vec<(Terminal, u32)>,
+    /// weights of map, enumerate, take, limit
+    pub adapters: [u32; 4],
+    pub p_drop: u32,
+    pub p_src_vec: u32,
+    /// weight towards small finite limits with many items
+    pub saturate: bool,
+}
+
+const ITEM_COUNTS: &[usize] = &[3, 0, 1, 2, 4, 5, 6, 3, 2, 7, 8, 9, 10, 11, 12, 4];
+
+fn gen_work(c: &mut Cur, p: &Profile, fallible: bool) -> LeafSpec {
+    let len = c.choice(4);
+    let mut script = Vec::with_capacity(len + 1);
+    for _ in 0..len {
+        script.push(match c.weighted(&[(0u8, 60), (1, 22), (2, if p.sib_wakes { 12 } else { 0 })]) {
+            0 => Step::Later,
+            1 => Step::SelfWake,
+            _ => Step::WakeSib(c.byte() % 16),
+        });
+    }
+    if c.coin(p.p_never) {
+        let at = c.choice(script.len() + 1);
+        script.truncate(at);
+        script.push(Step::Never);
+    } else {
+        script.push(Step::Yield(!(fallible && c.coin(p.p_err))));
+    }
+    LeafSpec { script, always: false }
+}
+
+pub fn gen_co_case(bytes: &[u8], cp: &CoProfile) -> CoCase {
+    let mut c = Cur::new(bytes);
+    let p = &cp.base;
+    let terminal = c.weighted(&cp.terminals);
+    let source = if c.coin(cp.p_src_vec) { SourceKind::Vec } else { SourceKind::Co };
+    let n = ITEM_COUNTS[c.choice(ITEM_COUNTS.len())];
+    // source script
+    let mut src_script = Vec::new();
+    for _ in 0..n {
+        if source == SourceKind::Co {
+            let pends = c.weighted(&[(0usize, 55), (1, 30), (2, 15)]);
+            for _ in 0..pends {
+                src_script.push(match c.weighted(&[(0u8, 60), (1, 25), (2, if p.sib_wakes { 15 } else { 0 })]) {
+                    0 => Step::Later,
+                    1 => Step::SelfWake,
+                    _ => Step::WakeSib(c.byte() % 16),
+                });
+            }
+        }
+        src_script.push(Step::Yield(true));
+    }
+    if source == SourceKind::Co {
+        let pends = c.weighted(&[(0usize, 60), (1, 30), (2, 10)]);
+        for _ in 0..pends {
+            src_script.push(if c.coin(64) { Step::SelfWake } else { Step::Later });
+        }
+        if c.coin(p.p_never / 2) {
+            src_script.push(Step::Never);
+        } else if c.coin(128) {
+            src_script.push(Step::End);
+        }
+    }
+    // adapter stack
+    let depth = c.weighted(&[(0usize, 12), (1, 30), (2, 30), (3, 28)]);
+    let mut stack = Vec::new();
+    for _ in 0..depth {
+        let k = c.weighted(&[(0u8, cp.adapters[0]), (1, cp.adapters[1]), (2, cp.adapters[2]), (3, cp.adapters[3])]);
+        stack.push(match k {
+            0 => Adapter::Map,
+            1 => Adapter::Enumerate,
+            2 => Adapter::Take(c.choice(n + 3)),
+            _ => {
+                if cp.saturate {
+                    Adapter::Limit(c.weighted(&[(1usize, 30), (2, 30), (3, 20), (5, 8), (0, 12)]))
+                } else {
+                    Adapter::Limit(c.weighted(&[(0usize, 20), (1, 25), (2, 25), (3, 15), (5, 15)]))
+                }
+            }
+        });
+    }
+    if cp.saturate && !stack.iter().any(|a| matches!(a, Adapter::Limit(_))) && stack.len() < MAX_DEPTH && c.coin(200) {
+        let at = c.choice(stack.len() + 1);
+        stack.insert(at, Adapter::Limit(c.weighted(&[(1usize, 35), (2, 35), (3, 20), (5, 10)])));
+    }
+    // closure futures
+    let mut work: Vec<Vec<LeafSpec>> = Vec::new();
+    for a in &stack {
+        if *a == Adapter::Map {
+            work.push((0..n).map(|_| gen_work(&mut c, p, false)).collect());
+        } else {
+            work.push(Vec::new());
+        }
+    }
+    match terminal {
+        Terminal::CollectVec => work.push(Vec::new()),
+        Terminal::ForEach => work.push((0..n).map(|_| gen_work(&mut c, p, false)).collect()),
+        Terminal::TryForEach | Terminal::CollectResult => work.push((0..n).map(|_| gen_work(&mut c, p, true)).collect()),
+    }
+    if c.coin(p.p_panic) {
+        // fault injection: one panic, in the source or in one closure future
+        let stages: Vec<usize> = work.iter().enumerate().filter(|(_, v)| !v.is_empty()).map(|(i, _)| i).collect();
+        let extra = if source == SourceKind::Co { 1 } else { 0 };
+        if stages.len() + extra > 0 {
+            let tgt = c.choice(stages.len() + extra);
+            if tgt < stages.len() {
+                let st = stages[tgt];
+                let it = c.choice(work[st].len());
+                let l = &mut work[st][it];
+                let at = c.choice(l.script.len());
+                l.script.truncate(at);
+                l.script.push(Step::Panic);
+            } else {
+                let at = c.choice(src_script.len() + 1);
+                src_script.truncate(at);
+                src_script.push(Step::Panic);
+            }
+        }
+    }
+    let mut sp = p.clone();
+    sp.p_drop = cp.p_drop;
+    let schedule = gen_schedule(&mut c, &sp);
+    let no_drain = c.coin(p.p_nodrain);
+    let drain: Vec<u8> = (0..32).map(|_| c.byte()).collect();
+    CoCase { source, src_script, stack, terminal, work, schedule, drain, no_drain }
+}
+
+// ------------------------------------------------------------------ engine
+
+pub struct CoEngine {
+    pub prop: &'static str,
+    pub profile: CoProfile,
+}
+
+/// facts about a finished run used for labels / non-triviality
+pub struct CoFacts {
+    pub backpressure: bool,
+    pub limit_saturated: bool,
+    pub err_in_flight: bool,
+    pub any_err: bool,
+    pub out_of_order: bool,
+    pub works: usize,
+}
+
+pub fn facts(case: &CoCase, w: &World) -> CoFacts {
+    let term_stage = case.stack.len();
+    let term_works: Vec<&WorkRec> = w.co.works.iter().filter(|r| r.stage == term_stage).collect();
+    let backpressure = term_works.iter().any(|r| w.nodes[r.node].polls.iter().map(|p| p.epoch).collect::<std::collections::BTreeSet<_>>().len() >= 2);
+    let mut limit_saturated = false;
+    if let Some(limit) = case.limit() {
+        for a in &term_works {
+            let c = w.nodes[a.node].created_at;
+            let live = term_works
+                .iter()
+                .filter(|b| {
+                    let n = &w.nodes[b.node];
+                    n.created_at <= c && n.finished_at.map(|f| f > c).unwrap_or(true) && n.dropped_at.map(|d| d > c).unwrap_or(true)
+                })
+                .count();
+            if live >= limit {
+                limit_saturated = true;
+            }
+        }
+    }
+    let mut first_err = None;
+    for r in &w.co.works {
+        if let Some((false, _)) = r.output {
+            let c = w.nodes[r.node].finished_at.unwrap_or(0);
+            if first_err.map(|f| c < f).unwrap_or(true) {
+                first_err = Some(c);
+            }
+        }
+    }
+    let err_in_flight = match first_err {
+        None => false,
+        Some(t) => w.co.works.iter().any(|r| {
+            let n = &w.nodes[r.node];
+            n.created_at < t && n.finished_at.map(|f| f > t).unwrap_or(true) && !n.polls.is_empty()
+        }),
+    };
+    // completion order differs from source order in some closure stage
+    let mut out_of_order = false;
+    for stage in 0..=term_stage {
+        let mut fin: Vec<(u32, usize)> = w
+            .co
+            .works
+            .iter()
+            .filter(|r| r.stage == stage)
+            .filter_map(|r| Some((w.nodes[r.node].finished_at?, r.item?)))
+            .collect();
+        fin.sort();
+        if fin.windows(2).any(|x| x[0].1 > x[1].1) {
+            out_of_order = true;
+        }
+    }
+    CoFacts { backpressure, limit_saturated, err_in_flight, any_err: first_err.is_some(), out_of_order, works: w.co.works.len() }
+}
+
+fn co_labels(case: &CoCase, out: &CoOut, f: &CoFacts) -> Vec<&'static str> {
+    let mut l = Vec::new();
+    l.push(match case.terminal {
+        Terminal::CollectVec => "term_collect_vec",
+        Terminal::ForEach => "term_for_each",
+        Terminal::TryForEach => "term_try_for_each",
+        Terminal::CollectResult => "term_collect_result",
+    });
+    l.push(if case.source == SourceKind::Vec { "src_vec" } else { "src_stream_co" });
+    l.push(match case.stack.len() {
+        0 => "stack_depth_0",
+        1 => "stack_depth_1",
+        2 => "stack_depth_2",
+        _ => "stack_depth_3",
+    });
+    let n = case.n_items();
+    if n == 0 {
+        l.push("source_empty");
+    }
+    if let Some(t) = case.take_min() {
+        l.push(if t == 0 {
+            "take_0"
+        } else if t < n {
+            "take_lt_len"
+        } else {
+            "take_ge_len"
+        });
+    }
+    if case.stack.contains(&Adapter::Map) {
+        l.push("has_map");
+    }
+    if case.stack.contains(&Adapter::Enumerate) {
+        l.push("has_enumerate");
+    }
+    if case.limit().is_some() {
+        l.push("finite_limit");
+    }
+    if f.backpressure {
+        l.push("closure_future_spans_polls");
+    }
+    if f.limit_saturated {
+        l.push("limit_saturated");
+    }
+    if f.any_err {
+        l.push("closure_future_failed");
+    }
+    if f.err_in_flight {
+        l.push("error_while_others_in_flight");
+    }
+    if f.out_of_order {
+        l.push("completion_order_differs_from_source_order");
+    }
+    if out.resolved {
+        l.push("resolved");
+    }
+    let r = &out.run;
+    if r.dropped_early {
+        l.push("dropped_by_schedule");
+    }
+    if r.quiescent {
+        l.push("quiescent_pending");
+    }
+    if r.spurious_polls > 0 {
+        l.push("spurious_poll");
+    }
+    if r.waker_changes_while_parked > 0 {
+        l.push("parent_waker_changed_while_parked");
+    }
+    if case.has_never() {
+        l.push("never_child");
+    }
+    if r.injected_panic {
+        l.push("panic_injected");
+    }
+    if r.inconclusive.is_some() {
+        l.push("inconclusive");
+    }
+    l
+}
+
+fn co_nontrivial(prop: &str, case: &CoCase, out: &CoOut, f: &CoFacts) -> bool {
+    match prop {
+        "C13" => case.limit().map(|l| case.n_items() > l).unwrap_or(false) && f.backpressure,
+        "C14" => f.err_in_flight,
+        "C15" => f.works > 0 && (case.stack.len() >= 2 || f.out_of_order),
+        "C02" => {
+            out.run.injected_panic
+                || (out.run.dropped_early && {
+                    let w = &out.run.world;
+                    let fin = w.co.works.iter().any(|r| w.nodes[r.node].finished_at.is_some());
+                    let unfin = w.co.works.iter().any(|r| w.nodes[r.node].finished_at.is_none());
+                    fin && unfin
+                })
+        }
+        "C03" => {
+            let w = &out.run.world;
+            w.co.src.map(|s| w.nodes[s].finished_at.is_some()).unwrap_or(false) && f.backpressure
+        }
+        _ => false,
+    }
+}
+
+impl Engine for CoEngine {
+    fn name(&self) -> &'static str {
+        "co"
+    }
+    fn eval(&self, bytes: &[u8], trace: bool) -> Eval {
+        let case = gen_co_case(bytes, &self.profile);
+        self.eval_case(&case, trace)
+    }
+}
+
+impl CoEngine {
+    pub fn eval_case(&self, case: &CoCase, trace: bool) -> Eval {
+        let mut out = run_co_case(case, cfg!(feature = "cfg-std"), trace);
+        crate::oracle::check_drops(&mut out.run.world);
+        check_co(&mut out.run.world, case);
+        let f = facts(case, &out.run.world);
+        let nontrivial = out.run.inconclusive.is_none() && co_nontrivial(self.prop, case, &out, &f);
+        let labels = co_labels(case, &out, &f);
+        let mut violations = if out.run.inconclusive.is_some() { Vec::new() } else { std::mem::take(&mut out.run.world.viol) };
+        // ownership, panics out of the library, lost wake-ups and polls outside
+        // the operation's own poll are violations of the terminal operation's
+        // property as well
+        let tor = term_oracle(case.terminal);
+        let extra: Vec<world::Violation> = violations
+            .iter()
+            .filter(|v| matches!(v.oracle, Oracle::L | Oracle::D | Oracle::WakerPanic | Oracle::Panic(_)))
+            .filter(|v| !(case.terminal == Terminal::CollectVec && matches!(v.oracle, Oracle::L | Oracle::D)))
+            .map(|v| world::Violation { oracle: tor, msg: format!("[{:?}] {}", v.oracle, v.msg) })
+            .collect();
+        violations.extend(extra);
+        let trace_lines = std::mem::take(&mut out.run.world.trace);
+        let ev = Eval {
+            violations,
+            nontrivial,
+            hash: hash_of(case),
+            labels,
+            inconclusive: out.run.inconclusive,
+            show: case.show(),
+            trace: trace_lines,
+        };
+        drop(out);
+        world::reset(cfg!(feature = "cfg-std"), false);
+        ev
+    }
+}
+
